@@ -37,6 +37,9 @@ class Model:
         self.oracle = oracle
         self.whole_bodies = False  # run loops / with-blocks of every called method on the concrete values
         self.auto_construct = False  # `ClassOfThePackage(...)` / `cls(...)` / `Class.classmethod(...)` run abstractly too
+        self.exact_exceptions = False  # try / except / suppress as they run on a concrete sample (sa/peval.py)
+        self.last_raised: Optional[str] = None  # class of the exception behind the last RAISES (exact_exceptions)
+        self.heap = False  # plain lists / dicts are changed in place (a document that a patch operation edits)
         self.cache: Dict[Tuple[int, str, Tuple[object, ...]], object] = {}
 
     def new(self, cls: str, *args: object, **kwargs: object) -> "MObj":
@@ -154,14 +157,14 @@ class Model:
                             try:
                                 return self.new(target_cls, *a, **kwc)
                             except _ConstructorRaises:
-                                raise _PathRaises("constructor raises") from None
+                                raise _PathRaises(self.last_raised or "constructor raises") from None
                     else:
                         cm = self.ctx.repo.find_method(info, via_class_method)
                         decos = [ast.unparse(d) for d in cm.node.decorator_list] if cm is not None else []
                         if cm is not None and ("classmethod" in decos or "staticmethod" in decos):
                             rc = self._run(cm, ClassModel(self, target_cls, {}), via_class_method, list(a), kwc, bind_self="classmethod" in decos)
                             if rc is RAISES:
-                                raise _PathRaises("callee raises")
+                                raise _PathRaises(self.last_raised or "callee raises")
                             return RETURNS_NONE if rc is None else rc
             if isinstance(e.func, ast.Name) and e.func.id not in env2 and e.func.id not in fn.module.functions and e.func.id in fn.module.imports:
                 # a function of another module of the package, imported by name
@@ -171,21 +174,21 @@ class Model:
                     kwi = {k.arg: ex.value(k.value, env2) for k in e.keywords if k.arg}
                     ri = self.call_function(target.functions[src_name or e.func.id], list(a), kwi)
                     if ri is RAISES:
-                        raise _PathRaises("callee raises")
+                        raise _PathRaises(self.last_raised or "callee raises")
                     return RETURNS_NONE if ri is None else ri
             if isinstance(e.func, ast.Name) and e.func.id not in env2 and e.func.id in fn.module.functions:
                 # a module-level helper of the same module
                 kwf = {k.arg: ex.value(k.value, env2) for k in e.keywords if k.arg}
                 rf = self.call_function(fn.module.functions[e.func.id], list(a), kwf)
                 if rf is RAISES:
-                    raise _PathRaises("callee raises")
+                    raise _PathRaises(self.last_raised or "callee raises")
                 return RETURNS_NONE if rf is None else rf
             if (isinstance(e.func, ast.Attribute) and isinstance(e.func.value, ast.Call) and isinstance(e.func.value.func, ast.Name)
                     and e.func.value.func.id == "super" and not e.func.value.args and fn.cls is not None and not static):
                 kw0 = {k.arg: ex.value(k.value, env2) for k in e.keywords if k.arg}
                 r0 = self.call(obj, e.func.attr, list(a), kw0, after=fn.cls.qualname)
                 if r0 is RAISES:
-                    raise _PathRaises("callee raises")
+                    raise _PathRaises(self.last_raised or "callee raises")
                 return RETURNS_NONE if r0 is None else r0
             if isinstance(e.func, ast.Attribute) and isinstance(e.func.value, (ast.Name, ast.Attribute)):
                 base = ex.value(e.func.value, env2)
@@ -193,7 +196,7 @@ class Model:
                     kw = {k.arg: ex.value(k.value, env2) for k in e.keywords if k.arg}
                     r = base.peval_call(e.func.attr, list(a), kw)
                     if r is RAISES:
-                        raise _PathRaises("callee raises")
+                        raise _PathRaises(self.last_raised or "callee raises")
                     return RETURNS_NONE if r is None else r
             return None
 
@@ -201,11 +204,21 @@ class Model:
         ex = Explorer(self.ctx.folder, fn, self.oracle, on_call=on_call, enter_loops=is_gen or self.whole_bodies,
                       enter_with=is_gen or self.whole_bodies)
         ex.call_function = lambda f_, a_: self.call_function(f_, list(a_))
+        ex.exact_exceptions = self.exact_exceptions
+        ex.heap = self.heap
         self.depth += 1
         try:
             outs = ex.run(env)
         finally:
             self.depth -= 1
+        if self.exact_exceptions:
+            # one concrete run: the outcomes are what happened
+            self.last_raised = None
+            kinds_x = [(k, v) for (k, _n, v) in outs]
+            if kinds_x and all(k == "raise" for k, _v in kinds_x):
+                classes_x = {str(v) for _k, v in kinds_x}
+                self.last_raised = classes_x.pop() if len(classes_x) == 1 else None
+                return RAISES
         if method == "__init__":
             return None
         if is_gen:
@@ -480,7 +493,7 @@ def run_selector(ctx: Ctx, rule: str, cname: str, mname: str, fields: Dict[str, 
             kwf = {k.arg: ex.value(k.value, env) for k in e.keywords if k.arg}
             rf = model.call_function(fn.module.functions[e.func.id], list(a), kwf)
             if rf is RAISES:
-                raise _PathRaises("callee raises")
+                raise _PathRaises(model.last_raised or "callee raises")
             return RETURNS_NONE if rf is None else rf
         if isinstance(e.func, ast.Attribute) and isinstance(e.func.value, (ast.Name, ast.Attribute)):
             base = ex.value(e.func.value, env)
@@ -488,7 +501,7 @@ def run_selector(ctx: Ctx, rule: str, cname: str, mname: str, fields: Dict[str, 
                 kws = {k.arg: ex.value(k.value, env) for k in e.keywords if k.arg}
                 r2 = base.peval_call(e.func.attr, list(a), kws)
                 if r2 is RAISES:
-                    raise _PathRaises("callee raises")
+                    raise _PathRaises(model.last_raised or "callee raises")
                 return RETURNS_NONE if r2 is None else r2
         return None
 
